@@ -211,4 +211,37 @@ timer between them -/
 example : UdpRelay.toUdp 65535 .whole .bare [] [.chunk [0, 2, 7, 8, 0], .tick, .chunk [1, 9]] = [[7, 8], [9]] ∧
     flatten (UdpRelay.toStream 65535 .prefixN [5, 5, 5] [[7, 8], [9]]) = [0, 2, 7, 8, 0, 1, 9] := by decide
 
+/-! ### replies reach the application that uses the association (client side, `last_peer`) -/
+
+/-- Obligation on the code (the extractor fails closed on any other shape): replies go to the sender of the most
+recent local datagram. -/
+theorem gen_reply_rule : Gen.replyRule = .lastSender := by decide
+
+open UdpRelay in
+/-- T15.7 `replies_reach_the_application`: when one application (address `a`) uses the association — every local
+datagram comes from `a` — and the history starts with a datagram of it (a target only answers what it was sent), every
+reply decoded from the tunnel is sent on the local socket exactly once, in order, to `a`, for every interleaving of
+datagrams and replies. -/
+theorem replies_reach_the_application (a : Nat) : ∀ (es : List CEv),
+    (∀ b d, CEv.fromApp b d ∈ es → b = a) →
+    clientReplies (some a) es = (repliesOf es).map (fun d => (a, d)) := by
+  intro es
+  induction es with
+  | nil => intro _; rfl
+  | cons e es ih =>
+    intro h
+    cases e with
+    | fromApp b d =>
+      have hb : b = a := h b d List.mem_cons_self
+      subst hb
+      simp only [clientReplies, repliesOf]
+      exact ih (fun b' d' hm => h b' d' (List.mem_cons_of_mem _ hm))
+    | reply d =>
+      simp only [clientReplies, repliesOf, List.map_cons]
+      rw [ih (fun b' d' hm => h b' d' (List.mem_cons_of_mem _ hm))]
+
+/-- what the rule does not give (stated, not claimed): with two applications on one association a reply goes to whoever
+sent last -/
+example : UdpRelay.clientReplies none [.fromApp 1 [7], .fromApp 2 [8], .reply [9]] = [(2, [9])] := by decide
+
 end AnyTLS.C15
